@@ -152,6 +152,58 @@ func (e *pfmEnv) snap() pfmSnap {
 	return s
 }
 
+// escrowMismatch: C31 on the four chains - for every denomination, the ICS-20 tracked total escrow equals
+// the sum of the balances of the chain's transfer escrow accounts (nothing but IBC moves funds there)
+func (e *pfmEnv) escrowMismatch() []string {
+	var out []string
+	for i, c := range e.L {
+		ctx := c.GetContext()
+		app := SimApp(c)
+		held := map[string]sdkmath.Int{}
+		var chans []string
+		if i < len(e.P) {
+			chans = append(chans, e.P[i].EndpointA.ChannelID)
+		}
+		if i > 0 {
+			chans = append(chans, e.P[i-1].EndpointB.ChannelID)
+		}
+		for _, ch := range chans {
+			for _, coin := range app.BankKeeper.GetAllBalances(ctx, transfertypes.GetEscrowAddress("transfer", ch)) {
+				if cur, ok := held[coin.Denom]; ok {
+					held[coin.Denom] = cur.Add(coin.Amount)
+				} else {
+					held[coin.Denom] = coin.Amount
+				}
+			}
+		}
+		tracked := map[string]sdkmath.Int{}
+		for _, coin := range app.TransferKeeper.GetAllTotalEscrowed(ctx) {
+			tracked[coin.Denom] = coin.Amount
+		}
+		denoms := map[string]bool{}
+		for d := range held {
+			denoms[d] = true
+		}
+		for d := range tracked {
+			denoms[d] = true
+		}
+		for d := range denoms {
+			h, t := sdkmath.ZeroInt(), sdkmath.ZeroInt()
+			if v, ok := held[d]; ok {
+				h = v
+			}
+			if v, ok := tracked[d]; ok {
+				t = v
+			}
+			if !h.Equal(t) {
+				out = append(out, fmt.Sprintf("chain %d denom %s: tracked total escrow %s, escrow accounts hold %s", i, d, t, h))
+			}
+		}
+	}
+	sort.Strings(out)
+	return out
+}
+
 // pfmNoise: inflation / staking rewards move the native staking token of every chain on every block
 func pfmNoise(k string) bool {
 	for _, a := range pfmNoisyAddrs {
